@@ -36,3 +36,7 @@ pub fn spin_loop_hint() {
 pub fn fence(order: Ordering) {
     crate::rt::fence(order);
 }
+
+#[cfg(loom_verif)]
+#[path = "/verif/hooks/sync_atomic_verif.rs"]
+pub(crate) mod verif;
